@@ -149,6 +149,11 @@ def gen(tier, rng):
             stmts.append("FOR I=1 TO 3:PRINT I;:NEXT")
         if rng.random() < 0.2:
             stmts.append("IF A<5 THEN PRINT \"lt\" ELSE PRINT \"ge\"")
+        if rng.random() < 0.3:
+            # loops closed by WEND are paired by a pass of their own, not through the table of branch references
+            stmts.append(rng.choice(["W9=0:WHILE W9<3:W9=W9+1:PRINT W9;:WEND:PRINT \"done\"", "WHILE 0:PRINT \"body\":WEND:PRINT \"skipped\"",
+                                     "W9=0:WHILE W9<2:W9=W9+1:V9=0:WHILE V9<2:V9=V9+1:PRINT W9;V9;:WEND:WEND",
+                                     "FOR I=1 TO 2:W9=0:WHILE W9<2:W9=W9+1:WEND:PRINT I;W9;:NEXT", "PRINT \"x\":WEND", "WHILE 1:PRINT \"open\""]))
         line = ":".join(stmts)
         other, _ = gen_prog.generate(rng, features={"tron": False, "input": False})
         base = ["R5000", sess.E(line), "R5000"]
